@@ -2,9 +2,14 @@
 
 Two kinds of cases, one implementation driver binary (harness/drivers/c08_driver.c, built with
 the vsched hooks; outside a scheduled thread the hooks are transparent):
-  ring heap|shm <nbytes> ...   sequential op scripts (differential run against the extracted model)
+  ring heap|shm <nbytes> ...   sequential op scripts (differential run against the extracted model); ops: alloc <nb>
+                               (w_alloc_bytes) | alloccl <nb> <lines> (w_alloc_cachelines, explicit footprint) | write |
+                               commit | fetch | rmove; the ring is created by muggle_shm_ringbuf_open on a segment of
+                               exactly the size the library asked from muggle_shm_open
   conc <n> <locked> <kill> <tries> ...   1 reader + writers under the deterministic scheduler
                                           (trace acceptance by the extracted interleaving model)
+  attach <nbytes> <tries> ...            the `ready` hand-over: creating process x attaching process polling
+                                          muggle_shm_ringbuf_is_ready (trace acceptance by C08/ModelAttach.v)
 """
 import os
 import re
@@ -22,30 +27,50 @@ HEADER_LINES = 1
 CASE_TIMEOUT = 5.0
 CL = 64
 HDR = 8
+RHDR = 960       # sizeof(muggle_shm_ringbuf_t); Properties_C08.v ties the model's literal to the headers of this run
+PAGE = 4096
 LEAVES = ["update_cached_remain", "w_alloc_cachelines", "w_alloc_bytes", "w_move", "r_fetch", "r_move"]
 KNOWN_PREFIX = "drained ring refuses a message of at most half its size"
 
-RULE = ("sequential: op scripts (alloc/write/commit/fetch/rmove, protocol-guarded) on heap-backed rings of 4..64 cache "
-        "lines opened through muggle_shm_ringbuf_open (exact-size ASan block) and on real SysV segments (smoke), message "
-        "sizes 1 byte .. half the ring incl. the footprint boundaries 64k-8/64k-7, a drained-position sweep (every "
+RULE = ("sequential: op scripts (alloc/alloccl/write/commit/fetch/rmove, protocol-guarded) on heap-backed rings of 4..64 cache "
+        "lines opened through muggle_shm_ringbuf_open (the interposed muggle_shm_open hands out an ASan block of EXACTLY the "
+        "segment size the library computed; requested sizes that are / are not powers of two, multiples of 64, multiples of "
+        "4096, with laps over every announced line, also 128..512 lines) and on real SysV segments (smoke), message "
+        "sizes 1 byte .. half the ring incl. the footprint boundaries 64k-8/64k-7, allocations through w_alloc_bytes and "
+        "through w_alloc_cachelines with an explicit footprint (slack 0..n/4, fixed-size slots for variable payloads), a "
+        "drained-position sweep (every "
         "reachable p x every need) and seeded random scripts steered to put the wrap marker at every slot; concurrent: "
         "1 reader + 1 writer (or 2..3 writers under the write lock) x seeded random schedules x writer killed after each "
-        "of its visible operations, plus a full-ring release-window sweep (reader pre-empted at every point around its read_cursor store); non-trivial = the script wraps (marker placed) or refuses an allocation / the trace "
+        "of its visible operations (also 1..3 writers under the write lock with writer 1 killed after each of its operations - while "
+        "holding the lock too - its sibling threads stopping at their next atomic operation), the ready hand-over (creating "
+        "process x attaching process polling is_ready, random schedules + a sweep of the attacher's position), plus a full-ring release-window sweep (reader pre-empted at every point around its read_cursor store); non-trivial = the script wraps (marker placed) or refuses an allocation / the trace "
         "interleaves reader and writer inside a call; distinct = distinct script / trace text")
 TRUSTED_BASE = [
-    "modelled, not verified: the mmap/SysV key handling of shm.c (smoke-tested through muggle_shm_ringbuf_open on a real segment; bulk cases interpose muggle_shm_open with an exact-size heap block); uint32 cursor arithmetic is modelled with explicit mod 2^32",
+    "modelled, not verified: the mmap/SysV key handling of shm.c (smoke-tested through muggle_shm_ringbuf_open on a real segment; bulk cases interpose muggle_shm_open with a heap block of exactly the requested segment size); uint32 cursor and size arithmetic is modelled with explicit mod 2^32; muggle_next_pow_of_2 inside muggle_shm_ringbuf_open is the Coq model of C20 (C20/Model.v model_npo2 with C20/ProofsNpo2.v; its tie to the C text is C20's obligation), compared with the code here by the differential run (ring sizes) only",
     "concurrent layer: sequentially consistent interleaving of the atomic cursor operations plus release/acquire views for the plain data lines (stand-in for C11; DRF-SC assumed), spinlock = test-and-set / clear with the orders extracted from the code; real weak-memory reorderings cannot be exhibited on x86 under a serialised run",
     "second tie (translator kind): lib/props/c08_slice.py slices the integer content of update_cached_remain, w_alloc_cachelines, w_alloc_bytes, w_move, r_fetch, r_move out of the clang JSON AST of the C text of this run (atomic builtins -> field reads/writes, header pointers followed back to line indices into two word arrays, file-local helpers inlined in continuation-passing style, pointer results projected to 0 / line+1) and the shared translator lib/leaftrans.py turns it into Gallina (coq/gen/Params_C08.v gen_*); obligations gen_*_matches_model prove them equal to reference functions on the whole ring domain by a shape-independent decision tactic, and the model's functions equal to the same references; trusted: clang 14 AST, the slicer and the translator",
-    "constants (cache line 64, header 8 bytes, field offsets, footprint macro table 0..4224) and the memory orders of the cursor sites are re-extracted from the code into coq/gen/Params_C08.v on every run and discharged by Properties_C08.v",
+    "muggle_shm_ringbuf_open is in the translator tie as well (lib/props/c08_slice.py OpenSlicer -> gen_open: the ring is what muggle_shm_open returns, its size argument is recorded, memset / release store become field assignments, the call of muggle_next_pow_of_2 stays an application of npo2): gen_open_matches_model proves the segment size and the initial fields equal to the model's open_sizes / init for every uint32 request",
+    "read-before-overwrite direction (reader's reads complete before the writer reuses the lines; ghost c_rrace, theorem shm_conc_reads_complete_before_overwrite): two orderings are ACCEPTED, not proved from C11: (i) the writer's load of read_cursor in update_cached_remain is relaxed in the code; it is taken as the acquiring side of the reader's release store because every later store of the writer is control-dependent on the value loaded (hardware keeps load -> dependent store order; C11 formally wants acquire there); (ii) the store read_cursor := 0 in r_fetch is relaxed; it is executed only if the header just read is the wrap marker (control dependency), so that one read is counted as ordered before it (C11 formally wants release there as well).  What IS an obligation: r_move's store of read_cursor must be a release (mo_sufficient); with it relaxed the model has a history with an unpublished read overwritten (shm_conc_release_of_read_cursor_necessary) and model_search reports it",
+    "the ready hand-over is a separate small interleaving model (C08/ModelAttach.v: plain initialisation, store of ready, attacher's loads of ready and magic, plain geometry reads, release/acquire views); the geometry is abstracted to n_cacheline, the driver checks the other fields it reads for consistency with it",
+    "constants (cache line 64, header 8 bytes, field offsets, sizeof(muggle_shm_ringbuf_t) = 960, MUGGLE_SHM_FLAG_CREAT, footprint macro table 0..4224) and the memory orders of the cursor sites are re-extracted from the code into coq/gen/Params_C08.v on every run and discharged by Properties_C08.v",
 ]
-ASSUMPTIONS = ["message length >= 1 (length 0 is the wrap marker's encoding); one reader; writers serialised by the write lock; "
-               "w_move directly follows the successful w_alloc_bytes of that message; r_move follows a successful r_fetch; "
-               "n_cacheline < 2^31"]
+ASSUMPTIONS = ["message length >= 1 in the property theorems (hypothesis `sized`; a length of 0 is executed by model and drivers as the code executes it, see EVIDENCE_NOTES); one reader; writers serialised by the write lock; "
+               "w_move directly follows the successful w_alloc_bytes / w_alloc_cachelines of that message; r_move follows a successful "
+               "r_fetch; n_cacheline < 2^31; an explicit footprint passed to w_alloc_cachelines is at least "
+               "MUGGLE_SHM_RINGBUF_CAL_BYTES_CACHELINE(n_bytes) and < 2^31; ring requests of 1 byte .. 2^31 bytes (above that "
+               "n_cacheline * 64 wraps in uint32: outside the property's quantifier, not claimed)"]
 EVIDENCE_NOTES = [
     "sequential theorems proved in full (shm_seq_refines_fifo, shm_alloc_no_overlap, shm_indices_in_range, shm_drained_accepts_partial with the exact iff, shm_drained_half_refuted); the property's clause 'a drained ring accepts up to half its size' is REFUTED (known finding drained-half)",
+    "the op lists of the sequential theorems contain both allocation entry points: OAlloc (w_alloc_bytes) and OAllocCl nb nc (w_alloc_cachelines with ANY footprint nc >= CAL_BYTES_CACHELINE(nb), nc < 2^31; the ghost message carries the footprint stored in its header, which is what w_move and r_move advance by); shm_alloc_cl_no_overlap (the whole of [a, a+nc) is free) and shm_drained_accepts_cl (accepted iff nc <= max(n-1-p, p-1)) are the explicit-footprint forms (seeded C08-9: r_move recomputing the stride from n_bytes)",
+    "muggle_shm_ringbuf_open: shm_open_segment_holds_ring (for every request of 1 .. 2^31 bytes: n_cacheline is the least power of two holding the request, n_bytes = 64 n, the segment asked from muggle_shm_open is a multiple of 4096 with header + whole data area inside it) over the model's open_sizes, which gen_open_matches_model ties to the C text (seeded C08-10: segment size computed before the power-of-two rounding); both drivers create every ring through this computation (the model driver through the extracted open_sizes)",
+    "OBSERVATION outside the property's quantifier (message sizes 1 byte .. half the ring; not a finding against the property): muggle_shm_ringbuf_w_alloc_bytes(rb, 0) / w_alloc_cachelines(rb, 0, n) return a pointer; the header of such a message (n_bytes = 0) is the wrap marker's encoding, so once it is committed every r_fetch takes it for the marker, sets read_cursor to 0 and (if line 0 holds an old header) delivers the first, already consumed message again after every r_move - the 0-byte message and everything committed after it are never delivered; with read_cursor = 0 at that moment fetch answers NULL for ever.  Shown on the unchanged code by the cases zero-* of the generator (e.g. zero-after-consume: ring of 16 lines, 5 bytes sent and consumed, alloc 0 + commit, then three fetches each deliver the 5-byte message at offset 8) and in Coq by shm_zero_length_observation.  The model executes length 0 exactly as the code does (step's guard is 0 <= nb), both drivers pass it on and are compared on it, the translator tie covers the guard-less code (0 <= nb < 2^31), the property theorems carry the hypothesis `sized` (every allocation >= 1 byte), and the monitor abstains from the delivery clauses from the moment a 0-byte message is committed",
+    "reader -> writer direction: shm_conc_reads_complete_before_overwrite (every reachable state, every interleaving, any number of locked writers, every kill point: no writer stores into a line whose latest plain read by the reader is not known to that writer to be complete; invariant RC of C08/ProofsConcRead.v: unpublished reads are confined to the lines the reader still owns, every line in a writer's knowledge room - cached room, room derived from the loaded read cursor, room received with the lock - has its latest read known to that writer) under mo_sufficient, which now includes is_rel(mo_r_store_move); refuted with that store relaxed by shm_conc_release_of_read_cursor_necessary; when the extracted order is weaker the obligation shm_conc_memory_orders_sufficient breaks and model_search explores the model for a history with c_rrace > 0",
+    "ready hand-over: the three sites (store of ready in muggle_shm_ringbuf_open, loads of ready and magic in muggle_shm_ringbuf_is_ready) are extracted like the cursor sites (code_aparams, an unobserved site is MoNone = failed obligation); shm_attach_reads_initialised_geometry: under every interleaving of creator and attacher, whenever is_ready answers true the geometry read afterwards is the creator's and covered by the attacher's view; shm_attach_orders_necessary refutes both relaxations; tie = trace acceptance of the attach scenario (creating process and attaching process on one zero-filled segment) + independent monitor (geometry announced = geometry read, consistent fields)",
+    "writer death while holding the write lock is now also exercised (not only a theorem): cases cklk-* kill writer 1 of 1..3 locked writers after each of its atomic operations; the model's kill switch makes the sibling writer threads stop at their next atomic operation (proc_dead), the reachable-state invariant and the read-coverage invariant cover that step (kill_inv, rc_kill)",
+    "concurrent layer: the writers of the interleaving model allocate through w_alloc_bytes only (footprint = CAL_BYTES_CACHELINE(n_bytes)); explicit footprints are covered by the sequential theorems and the sequential differential run",
     "concurrent layer proved in full: shm_conc_inv_reachable (reachable-state invariant CInv of C08/ProofsConcInv.v for every schedule, ring size, number of writers under the write lock or one writer without it, script, retry bound and kill point; consequences: no uncovered plain read under the extracted memory orders, no store into an unread message or the live marker, delivered is a prefix of committed with exact line / length / payload tag, unread messages intact in memory) and shm_crash_safe as its corollary (any schedule followed by reader-only steps); shm_reader_only_frame holds from any state.  The interleaving model is tied to the code on every run by trace acceptance (1 reader + 1 writer, 2-3 locked writers, writer killed after each atomic operation) with the model's ghost monitors and the independent trace monitor",
     "release window: the concurrent generator contains a deterministic pre-emption sweep on a FULL ring (writer polling w_alloc for the lines the reader is about to release, reader stopped at every scheduling point around its read_cursor store, explicit schedules): plain accesses after the last atomic operation of r_move belong to the next plain segment of the reader and are separated from the store by a scheduling point (vs_after), so a store / read of the released line after the release is exposed; refuted variant shm_reader_wipe_after_release_refuted (seeded C08-8) violates the reader frame clause rstep_frame / shm_reader_only_frame",
-    "translator tie: an edit of shm_ring_buffer.c that changes the value of cached_remain / write_cursor / read_cursor / the cached header line / the header words written / the NULL-or-line result of one of the six functions anywhere in the domain, or makes it unsliceable, breaks a gen_*_matches_model obligation even when no generated history reaches the difference; guard clauses, hoisted locals, helper functions and signed/unsigned reformulations with the same value keep it (checked on refactored/C08-A, C08-B).  Not in the translator tie (differential + trace acceptance only): muggle_shm_ringbuf_open's size computation (calls muggle_next_pow_of_2, memset, shm), the payload bytes, the memory orders (extracted separately), is_ready",
+    "translator tie: an edit of shm_ring_buffer.c that changes the value of cached_remain / write_cursor / read_cursor / the cached header line / the header words written / the NULL-or-line result of one of the six functions anywhere in the domain, or makes it unsliceable, breaks a gen_*_matches_model obligation even when no generated history reaches the difference; guard clauses, hoisted locals, helper functions and signed/unsigned reformulations with the same value keep it (checked on refactored/C08-A, C08-B).  Not in the translator tie (differential + trace acceptance only): the payload bytes, the memory orders (extracted separately), is_ready, the body of muggle_next_pow_of_2 (C20)",
     "not covered by theorems (modelled): payload bytes are abstracted to a tag per message in the interleaving model (byte-exactness is proved in the sequential model and checked by the drivers); the SC + release/acquire-view memory model stands in for C11",
 ]
 
@@ -89,8 +114,16 @@ SITES = [  # (params field, function, op, cell)
 ]
 
 
+ASITES = [  # (aparams field, function, op, cell)
+    ("mo_open_store_ready", "muggle_shm_ringbuf_open", "store", "ready"),
+    ("mo_ready_load", "muggle_shm_ringbuf_is_ready", "load", "ready"),
+    ("mo_magic_load", "muggle_shm_ringbuf_is_ready", "load", "magic"),
+]
+
+
 def _discovery_cases():
-    return [V.Case("disc-1w", ["conc 8 0 -1 3", "writer 1:1 1:2 1:3 1:4 1:5 1:6", "sched rand 3 50 0 0"]),
+    return [V.Case("disc-attach", ["attach 512 3", "sched rand 5 40 0 0"]),
+            V.Case("disc-1w", ["conc 8 0 -1 3", "writer 1:1 1:2 1:3 1:4 1:5 1:6", "sched rand 3 50 0 0"]),
             V.Case("disc-2w", ["conc 16 1 -1 3", "writer 1:1 60:2 1:3", "writer 100:4 1:5", "sched rand 4 30 0 0"])]
 
 
@@ -118,6 +151,12 @@ def _site_orders(exe):
                     key = "mo_lock_tas"
                 elif op == "clear" and cell == "wlock":
                     key = "mo_lock_clear"
+                elif op == "store" and cell == "ready":
+                    key = "mo_open_store_ready"
+                elif op == "load" and cell == "ready":
+                    key = "mo_ready_load"
+                elif op == "load" and cell == "magic":
+                    key = "mo_magic_load"
                 if key:
                     seen.setdefault(key, set()).add(mo)
     return seen
@@ -156,6 +195,7 @@ def gen_params(ctx):
              "Definition code_off_nbytes : Z := %s." % g("off_nbytes"),
              "Definition code_off_ncl : Z := %s." % g("off_ncl"),
              "Definition code_ring_hdr_size : Z := %s." % g("ring_hdr_size"),
+             "Definition code_flag_creat : Z := %s." % g("flag_creat"),
              "(* MUGGLE_SHM_RINGBUF_CAL_BYTES_CACHELINE(k) for k = 0 .. %d *)" % (len(table) - 1),
              "Definition code_cal_table : list Z := [%s]." % "; ".join(table)]
     # memory orders observed at the cursor / lock sites
@@ -173,6 +213,17 @@ def gen_params(ctx):
         else:
             fields.append("%s := %s" % (field, MO.get(next(iter(mos)), "MoNone")))
     lines.append("Definition code_params : params :=\n  {| " + ";\n     ".join(fields) + " |}.")
+    # the three sites of the ready hand-over (muggle_shm_ringbuf_open / muggle_shm_ringbuf_is_ready)
+    lines.append("From MV Require Import C08.ModelAttach.")
+    afields = []
+    for field, fn, op, cell in ASITES:
+        mos = seen.get(field, set())
+        if len(mos) != 1:
+            lines.append("(* site %s (%s %s %s): observed %s *)" % (field, fn, op, cell, sorted(mos)))
+            afields.append("%s := MoNone" % field)
+        else:
+            afields.append("%s := %s" % (field, MO.get(next(iter(mos)), "MoNone")))
+    lines.append("Definition code_aparams : aparams :=\n  {| " + ";\n     ".join(afields) + " |}.")
     # second tie (DESIGN.md 4.4): the integer content of the six functions, sliced out of the C text of this
     # run (lib/props/c08_slice.py) and translated by the shared translator lib/leaftrans.py
     lines.append("")
@@ -196,6 +247,16 @@ def gen_params(ctx):
             lines.append("(* slicer / translator error for %s: %s *)\n" % (leaf, str(e).replace("*)", "* )")))
         except Exception as e:      # a broken AST must break the obligation, not the machinery
             lines.append("(* slicer failure for %s: %s *)\n" % (leaf, str(e)[:200].replace("*)", "* )")))
+    # muggle_shm_ringbuf_open: the size computation and the initial field values (lib/props/c08_slice.py OpenSlicer)
+    lines.append("(* --- muggle_shm_ringbuf_open: segment size asked from muggle_shm_open and the initial ring fields --- *)")
+    lines.append("From MV Require Import C08.Model.")
+    try:
+        enums = {"MUGGLE_SHM_FLAG_CREAT": int(vals["flag_creat"]), "MUGGLE_SHM_FLAG_OPEN": int(vals["flag_open"])}
+        lines.append(S.translate_open(src, "muggle_shm_ringbuf_open", flags, "gen_open", sizeofs, enums)[0])
+    except L.LeafError as e:
+        lines.append("(* slicer / translator error for open: %s *)\n" % str(e).replace("*)", "* )"))
+    except Exception as e:
+        lines.append("(* slicer failure for open: %s *)\n" % str(e)[:200].replace("*)", "* )"))
     return "\n".join(lines) + "\n"
 
 
@@ -210,6 +271,24 @@ def _seq(name, kind, nbytes, ops, meta=None):
 
 def _send(nb, seed):
     return ["alloc %d" % nb, "write 0 %d %d" % (nb, seed), "commit"]
+
+
+def _sendcl(nb, nc, seed):
+    """w_alloc_cachelines with an explicit footprint of nc lines (>= need_of(nb))"""
+    return ["alloccl %d %d" % (nb, nc), "write 0 %d %d" % (nb, seed), "commit"]
+
+
+def _lap_script(n, laps=2):
+    """traffic that walks the write cursor over every line of the ring (several laps): messages of about n/8
+    lines (at least 3), each consumed at once, so that a ring whose announced size exceeds its segment is
+    actually written and read behind the end of the segment"""
+    k = max(3, n // 8)
+    nb = CL * (k - 2) - HDR
+    ops = []
+    count = (laps * n) // k + 2
+    for i in range(count):
+        ops += _send(nb, i + 1) + ["fetch", "rmove"]
+    return ops + ["fetch"]
 
 
 def corpus_cases(ctx):
@@ -231,6 +310,10 @@ def corpus_cases(ctx):
             if f.endswith(".case"):
                 cs.append(V.Case.load(os.path.join(d, f)))
     cs.append(_seq("corpus-shm-round-up", "shm", 5 * CL + 1, _send(40, 1) + ["fetch", "rmove"] + _send(56, 2) + ["fetch", "rmove", "fetch"]))
+    # corpus/C08/*.case (loaded above) holds the regressions for explicit footprints (cl-fixed-slots, cl-slack-wrap:
+    # w_alloc_cachelines with slack) and for ring sizes that are not a power of two (open-3136, open-20480)
+    for nb_ in (33 * CL + 1, PAGE - RHDR + 1):
+        cs.append(_seq("corpus-open-%d" % nb_, "heap", nb_, _lap_script(pow2_lines(nb_))))
     return cs
 
 
@@ -245,8 +328,8 @@ class _Pred:
         self.fetched = False
         self.marker = None
 
-    def alloc(self, nb):
-        need = need_of(nb)
+    def alloc(self, nb, need=None):
+        need = need_of(nb) if need is None else need
         if self.c < need:
             if self.r > self.w:
                 self.c = self.r - self.w - 1
@@ -302,24 +385,34 @@ def _sizes(n):
     return sorted(set(x for x in b if 1 <= x <= half) | {half, half - 1})
 
 
-def _random_script(rng, n, nops, safe):
+def _random_script(rng, n, nops, safe, cl=True):
     P = _Pred(n)
     ops = []
     sizes = _sizes(n)
     half = (CL // 2) * n
     seed = rng.below(200)
     wbias = rng.choice([30, 50, 70])
+    # how the writer asks for room: w_alloc_bytes only / w_alloc_cachelines with some slack now and then /
+    # fixed-size slots of `slot` lines for variable payloads (footprint != CAL_BYTES_CACHELINE(n_bytes))
+    mode = rng.choice(["bytes", "bytes", "mixed", "mixed", "slots"]) if cl else "bytes"
+    slot = rng.range(3, max(3, min(8, n // 2)))
     for _ in range(nops):
         x = rng.below(100)
         if x < wbias:
             for _try in range(6):
                 nb = rng.choice(sizes) if rng.chance(1, 2) else (rng.range(1, min(half, 130)) if rng.chance(2, 3) else rng.range(1, half))
-                if not (safe and P.drained() and need_of(nb) > max(n - 1 - P.w, P.w - 1)):
+                need = None
+                if mode == "slots":
+                    nb = rng.range(1, CL * (slot - 2) - HDR)
+                    need = slot
+                elif mode == "mixed" and rng.chance(1, 2):
+                    need = need_of(nb) + rng.choice([0, 1, 1, 2, 3, rng.below(max(1, n // 4))])
+                if not (safe and P.drained() and (need or need_of(nb)) > max(n - 1 - P.w, P.w - 1)):
                     break
             else:
                 continue
-            ops.append("alloc %d" % nb)
-            ok = P.alloc(nb)
+            ops.append("alloc %d" % nb if need is None else "alloccl %d %d" % (nb, need))
+            ok = P.alloc(nb, need)
             if ok:
                 seed += 1
                 if rng.chance(9, 10):
@@ -331,7 +424,7 @@ def _random_script(rng, n, nops, safe):
                     ops.append("commit")
                     P.commit()
         elif x < wbias + 8:
-            ops.append(rng.choice(["commit", "write 0 1 3", "rmove", "alloc 0", "write 5 5000 1"]))
+            ops.append(rng.choice(["commit", "write 0 1 3", "rmove", "alloc -1", "write 5 5000 1", "alloccl 1 2", "alloccl 100 3"]))
             if ops[-1] == "commit":
                 P.commit()
             elif ops[-1] == "rmove":
@@ -382,9 +475,38 @@ def _drained_sweep(tier):
     return cases
 
 
+def _zero_length_cases():
+    """OUTSIDE the property's quantifier (sizes 1 byte .. half the ring): a message of length 0, whose header is the
+    wrap marker's encoding.  The model executes it as the code does, so both sides are compared on these histories;
+    the monitor abstains from the delivery clauses once such a message is committed."""
+    cs = []
+    cs.append(_seq("zero-after-consume", "heap", 16 * CL,
+                   _send(5, 1) + ["fetch", "rmove", "alloc 0", "commit", "fetch", "rmove", "fetch", "rmove", "fetch"] + _send(9, 2) + ["fetch"]))
+    cs.append(_seq("zero-first", "heap", 8 * CL, ["alloc 0", "commit", "fetch", "fetch"] + _send(3, 1) + ["fetch", "fetch"]))
+    cs.append(_seq("zero-uncommitted", "heap", 8 * CL, ["alloc 0", "write 0 0 1", "alloc 7", "write 0 7 2", "commit", "fetch", "rmove", "fetch"]))
+    cs.append(_seq("zero-cl", "heap", 16 * CL, _send(20, 1) + ["alloccl 0 4", "commit", "fetch", "rmove", "fetch", "rmove", "fetch"]))
+    cs.append(_seq("zero-pending", "heap", 16 * CL, _send(20, 1) + _send(30, 2) + ["fetch", "rmove", "alloc 0", "commit", "fetch", "rmove", "fetch", "rmove", "fetch"]))
+    cs.append(_seq("zero-refused", "heap", 4 * CL, _send(1, 1) + ["alloc 0", "fetch", "rmove", "alloc 0", "commit", "fetch"]))
+    return cs
+
+
+def _open_sweep(tier):
+    """ring sizes through muggle_shm_ringbuf_open: powers of two, not powers of two, not multiples of 64, around the
+    points where the 4K rounding of the segment changes; every line of the announced ring is written and read"""
+    sizes = [1, 63, 64, 65, 3 * CL, 4 * CL, 5 * CL - 1, 8 * CL, 9 * CL, 17 * CL + 5, 32 * CL, 33 * CL, 40 * CL + 1,
+             48 * CL, PAGE - RHDR, PAGE - RHDR + 1, 49 * CL, 49 * CL + 1, 50 * CL, 63 * CL + 63, 64 * CL]
+    if tier != "quick":
+        sizes += [65 * CL, 100 * CL, 2 * PAGE - RHDR, 2 * PAGE - RHDR + 1, 2 * PAGE, 3 * PAGE, 5 * PAGE, 5 * PAGE + 1, 8 * PAGE]
+    else:
+        sizes += [2 * PAGE - RHDR + 1, 5 * PAGE]
+    return [_seq("open-%d" % nb, "heap", nb, _lap_script(pow2_lines(nb)), {"safe": True}) for nb in sizes]
+
+
 def generate(rng, tier):
     cases = []
     cases += _drained_sweep(tier)
+    cases += _open_sweep(tier)
+    cases += _zero_length_cases()
     nrand = 700 if tier == "quick" else 12000
     for i in range(nrand):
         n = rng.choice([4, 8, 8, 16, 16, 32, 64])
@@ -400,10 +522,11 @@ def generate(rng, tier):
 
 
 def search(rng, diverging, tier):
-    out = []
+    out = list(_open_sweep("thorough"))
     for i in range(3000):
         n = rng.choice([4, 8, 8, 16, 32, 64])
-        out.append(_seq("search-%d" % i, "heap", n * CL, _random_script(rng, n, rng.range(4, 30), True), {"safe": True}))
+        nbytes = n * CL if rng.chance(3, 4) else rng.range((n // 2) * CL + 1, n * CL)
+        out.append(_seq("search-%d" % i, "heap", nbytes, _random_script(rng, n, rng.range(4, 30), True), {"safe": True}))
     return out
 
 
@@ -422,10 +545,18 @@ def _mon_seq(case, lines):
     nbytes = int(hw[2])
     n = pow2_lines(nbytes)
     w0, st = _parse_state(lines[0])
-    if w0[:1] != ["open"] or len(w0) < 4 or not w0[1].isdigit():
+    if w0[:1] != ["open"] or len(w0) < 6 or not all(x.isdigit() for x in w0[1:6]):
         return "open failed: %r" % lines[0]
     if int(w0[1]) != n or int(w0[2]) != n * CL or w0[3] != "1":
-        return "open: ring of %s lines / %s bytes ready=%s for a request of %d bytes (expected %d lines)" % (w0[1], w0[2], w0[3], nbytes, n)
+        return ("open: ring of %s lines / %s bytes ready=%s for a request of %d bytes (expected %d lines = the least power of two "
+                "holding the request)" % (w0[1], w0[2], w0[3], nbytes, n))
+    seg, tot = int(w0[4]), int(w0[5])
+    if RHDR + CL * n > seg:
+        return ("open: the ring announces %d cache lines (%d data bytes + %d header bytes = %d) but the segment asked from "
+                "muggle_shm_open has only %d bytes: the writer is eventually handed a region outside the shared memory"
+                % (n, CL * n, RHDR, RHDR + CL * n, seg))
+    # (the 4K rounding of the segment and the total_bytes field are not part of the property: they are compared with
+    #  the model by the differential run and tied to the C text by gen_open_matches_model)
     if st != [0, 0, n - 1]:
         return "open: cursors %r, expected [0, 0, %d]" % (st, n - 1)
     data = n * CL
@@ -438,6 +569,7 @@ def _mon_seq(case, lines):
     marker = None          # (line, gen) of the wrap marker the reader may still look at
     w_mon = r_mon = 0      # line positions implied by the offsets the implementation returned
     known = None
+    zero_pending = False   # the outstanding allocation is a message of length 0
     ops = [l for l in case.lines[1:] if l.split()]
     if len(lines) - 1 != len(ops):
         return "expected %d result lines, got %d" % (len(ops), len(lines) - 1)
@@ -446,13 +578,33 @@ def _mon_seq(case, lines):
         rw, st = _parse_state(rl)
         if not rw or rw[0] != o[0]:
             return "op %d (%s): answer %r" % (k, ol, rl)
-        if o[0] == "alloc":
+        if o[0] in ("alloc", "alloccl"):
             nb = int(o[1])
-            if nb < 1 or nb >= 2 ** 31:
+            need = need_of(max(nb, 0))
+            if o[0] == "alloccl":
+                # explicit footprint: the caller reserves nc >= need lines (fixed-size slots, slack)
+                nc = int(o[2]) if len(o) > 2 else 0
+                if nb < 0 or nb >= 2 ** 31 or nc < need or nc >= 2 ** 31:
+                    if rw[1] != "skip":
+                        return "op %d: %s is outside the usage protocol but was not skipped" % (k, ol)
+                    continue
+                need_min, need = need, nc
+            else:
+                need_min = need
+            if nb < 0 or nb >= 2 ** 31:
                 if rw[1] != "skip":
                     return "op %d: length %d is outside the usage protocol but was not skipped" % (k, nb)
                 continue
-            need = need_of(nb)
+            if nb == 0:
+                # a message of length 0 is outside the property's quantifier (sizes 1 byte .. half the ring): its header
+                # is the wrap marker's encoding.  The drivers pass it on as it is (model and code are compared on it);
+                # this oracle of the PROPERTY says nothing about the allocation itself and abstains from the delivery
+                # clauses from the moment such a message is committed.
+                if rw[1] in ("NULL", "skip"):
+                    continue
+                zero_pending = True
+                pend = {"off": int(rw[1]), "nb": 0, "line": (int(rw[1]) - HDR) // CL, "need": need, "bytes": [], "gen": gen}
+                continue
             if rw[1] == "NULL":
                 drained = (not q) and pend is None and not fetched and w_mon == r_mon
                 if drained:
@@ -461,9 +613,9 @@ def _mon_seq(case, lines):
                     if need <= room:
                         return ("op %d: ring drained at line %d of %d refuses %d bytes (%d lines) although %d contiguous "
                                 "lines are free: traffic wedges" % (k, p, n, nb, need, room))
-                    if nb <= half and known is None:
+                    if nb <= half and need_min > room and known is None:
                         known = "%s: drained at line %d of %d, %d bytes need %d lines > max(n-1-p, p-1) = %d (op %d)" % (
-                            KNOWN_PREFIX, p, n, nb, need, room, k)
+                            KNOWN_PREFIX, p, n, nb, need_min, room, k)
                 continue
             off = int(rw[1])
             if off % CL != HDR or off < HDR or off - HDR + need * CL > data or off + nb > data:
@@ -484,6 +636,7 @@ def _mon_seq(case, lines):
                 return "op %d: region handed to the writer, lines [%d,%d), covers the wrap marker at line %d the reader still has to read" % (
                     k, line, line + need, marker[0])
             pend = {"off": off, "nb": nb, "line": line, "need": need, "bytes": [None] * nb, "gen": gen}
+            zero_pending = False
         elif o[0] == "write":
             a, ln_, sd = int(o[1]), int(o[2]), int(o[3])
             legal = pend is not None and a >= 0 and ln_ >= 0 and a + ln_ <= pend["nb"]
@@ -495,6 +648,8 @@ def _mon_seq(case, lines):
         elif o[0] == "commit":
             if (rw[1] == "ok") != (pend is not None):
                 return "op %d: commit answered %s" % (k, rw[1])
+            if pend is not None and zero_pending:
+                return known        # a 0-byte message has been committed: outside the property, abstain from here on
             if pend is not None:
                 q.append(pend)
                 w_mon = pend["line"] + pend["need"]
@@ -539,7 +694,55 @@ def monitor(case, lines):
     head = case.lines[0].split() if case.lines else []
     if head[:1] == ["conc"]:
         return _mon_conc(case, lines)
+    if head[:1] == ["attach"]:
+        return _mon_attach(case, lines)
     return _mon_seq(case, lines)
+
+
+def _mon_attach(case, lines):
+    """independent monitor of the ready hand-over on the scheduler trace: whenever the attacher reports the geometry
+    it used (is_ready answered true) it is the creator's (n_cacheline of the request, consistent fields), the load of
+    ready that let it through returned 1 after the creator's store of 1, and both threads finish."""
+    head = case.lines[0].split()
+    nbytes = int(head[1])
+    n = pow2_lines(nbytes)
+    stored = False
+    last_ready = None
+    geo = None
+    fin = set()
+    for ln in lines:
+        w = ln.split()
+        if not w:
+            continue
+        if w[0] in ("DEADLOCK", "LIVELOCK"):
+            return "scheduler reported %s (creator / attacher do not terminate)" % ln
+        if w[0] == "E" and len(w) >= 6:
+            tid, op, cell, val = int(w[1]), w[2], w[3], int(w[5])
+            if tid == 0 and op == "store" and cell == "ready":
+                if val != 1:
+                    return "creator stores ready := %d" % val
+                stored = True
+            elif tid == 1 and op == "load" and cell == "ready":
+                last_ready = val
+                if val == 1 and not stored:
+                    return "attacher reads ready = 1 before the creator stored it"
+        elif w[0] == "R":
+            tid, k = int(w[1]), w[2]
+            v = int(w[3]) if len(w) > 3 else 0
+            if tid == 1 and k == "geo":
+                geo = v
+                if last_ready != 1:
+                    return "is_ready answered true although the load of ready returned %r" % last_ready
+                if v != n:
+                    return ("after muggle_shm_ringbuf_is_ready answered true the attacher read the geometry %d "
+                            "(-1 = inconsistent fields); the creator's ring has %d cache lines" % (v, n))
+            elif tid == 0 and k == "created" and v != n:
+                return "creator announces %d cache lines for a request of %d bytes (expected %d)" % (v, nbytes, n)
+        elif w[0] == "X":
+            fin.add(int(w[1]))
+    if fin != {0, 1}:
+        return "creator / attacher did not finish (finished: %s)" % sorted(fin)
+    return None
 
 
 def known_class(case, failure_text):
@@ -549,16 +752,24 @@ def known_class(case, failure_text):
 
 
 def nontrivial_key(case, lines):
+    if case.lines and case.lines[0].startswith("attach"):
+        txt = "\n".join(lines)
+        return hash(txt) if " load ready " in txt else None
     if case.lines and case.lines[0].startswith("conc"):
         txt = "\n".join(lines)
         return hash(txt) if (" store wcur " in txt and " load wcur " in txt) else None
     txt = "\n".join(lines)
-    if "alloc NULL" in txt or re.search(r"alloc 8 \| 0 [1-9]", txt):
+    if "alloc NULL" in txt or "alloccl NULL" in txt or re.search(r"alloc(cl)? 8 \| 0 [1-9]", txt):
         return "\n".join(case.lines)
     return None
 
 
 def tally(dist, case, lines):
+    if case.lines and case.lines[0].startswith("attach"):
+        dist["attach_cases"] = dist.get("attach_cases", 0) + 1
+        if any(ln.startswith("R 1 notready") for ln in lines):
+            dist["attach_polled_before_ready"] = dist.get("attach_polled_before_ready", 0) + 1
+        return
     if case.lines and case.lines[0].startswith("conc"):
         dist["conc_cases"] = dist.get("conc_cases", 0) + 1
         dist["conc_events"] = dist.get("conc_events", 0) + sum(1 for ln in lines if ln.startswith("E "))
@@ -574,7 +785,9 @@ def tally(dist, case, lines):
         w = ln.split()
         if not w:
             continue
-        if w[0] == "alloc":
+        if w[0] in ("alloc", "alloccl"):
+            if w[0] == "alloccl":
+                dist["alloc_explicit_footprint"] = dist.get("alloc_explicit_footprint", 0) + 1
             k = "alloc_refused" if w[1] == "NULL" else ("alloc_skip" if w[1] == "skip" else ("alloc_wrapped" if w[1] == "8" else "alloc_ok"))
             dist[k] = dist.get(k, 0) + 1
         elif w[0] == "fetch":
@@ -610,6 +823,41 @@ def _conc_script(rng, n, k, tagbase):
     return out
 
 
+def _attach(name, nbytes, tries, sched):
+    return V.Case(name, ["attach %d %d" % (nbytes, tries), "sched " + sched], {"kind": "attach"})
+
+
+def _attach_cases(rng, tier):
+    """the ready hand-over: creating process x attaching process that polls is_ready; random schedules plus the
+    deterministic sweep 'attacher polls after each of the creator's scheduling points'"""
+    cases = []
+    for i in range(40 if tier == "quick" else 600):
+        nb = rng.choice([64, 300, 512, 49 * CL, 4096, 5000])
+        cases.append(_attach("att-%d" % i, nb, rng.choice([1, 2, 3, 6]),
+                             "rand %d %d 0 0" % (rng.below(1 << 30), rng.choice([20, 50, 80]))))
+    for c_first in range(0, 4):
+        for polls in (1, 2, 3):
+            # creator runs c_first scheduling points, then the attacher runs alone for a while, then round robin
+            cases.append(_attach("attw-c%d-p%d" % (c_first, polls), 512, polls,
+                                 "list - " + " ".join(["0"] * c_first + ["1"] * (5 * polls) + ["0"] * 6)))
+    return cases
+
+
+def _locked_kill_cases(rng, tier):
+    """the writer process dies while one of its threads holds the write lock: 1..3 writers under the lock, writer 1
+    killed after each of its first visible operations (test-and-set, loads, stores, clear); its sibling threads
+    stop at their next atomic operation"""
+    cases = []
+    for i in range(4 if tier == "quick" else 40):
+        n = rng.choice([8, 16, 16, 32])
+        nw = rng.choice([1, 2, 2, 3])
+        scs = [_conc_script(rng, n, rng.range(2, 4), 60 * w + rng.below(20)) for w in range(nw)]
+        seed, stick, tries = rng.below(1 << 30), rng.choice([20, 50, 80]), rng.choice([1, 2])
+        for k in range(0, 7 * len(scs[0]) * tries + 2):
+            cases.append(_conc("cklk-%d-%d" % (i, k), n, 1, k, tries, scs, "rand %d %d 0 0" % (seed, stick)))
+    return cases
+
+
 def _conc_cases(rng, tier):
     cases = []
     k1 = 140 if tier == "quick" else 3000
@@ -626,6 +874,8 @@ def _conc_cases(rng, tier):
         for k in range(0, 4 * len(sc) * tries + 2):
             cases.append(_conc("ckill-%d-%d" % (i, k), n, 0, k, tries, [sc], "rand %d %d 0 0" % (seed, stick)))
     cases += _release_window_cases(tier)
+    cases += _locked_kill_cases(rng, tier)
+    cases += _attach_cases(rng, tier)
     k2 = 90 if tier == "quick" else 2000
     for i in range(k2):
         n = rng.choice([8, 16, 16, 32, 64])
@@ -643,6 +893,18 @@ def _code_orders():
         return None
     vals = []
     for field, _, _, _ in SITES:
+        m = re.search(r"%s := (\w+)" % field, txt)
+        vals.append(m.group(1) if m else "MoNone")
+    return vals
+
+
+def _code_aorders():
+    try:
+        txt = open(os.path.join(V.COQ, "gen", "Params_C08.v")).read()
+    except OSError:
+        return None
+    vals = []
+    for field, _, _, _ in ASITES:
         m = re.search(r"%s := (\w+)" % field, txt)
         vals.append(m.group(1) if m else "MoNone")
     return vals
@@ -680,8 +942,13 @@ def model_cases(cases, impl_results):
     from the code on this run, so that its ghost monitor for uncovered plain reads is meaningful."""
     out = []
     vals = _code_orders()
+    avals = _code_aorders()
     for c in cases:
-        if c.lines and c.lines[0].startswith("conc"):
+        if c.lines and c.lines[0].startswith("attach"):
+            r = impl_results.get(c.name)
+            extra = ["aparams " + " ".join(avals)] if avals else []
+            out.append(V.Case(c.name, list(c.lines) + extra + ["TRACE"] + (list(r["lines"]) if r else []), c.meta))
+        elif c.lines and c.lines[0].startswith("conc"):
             r = impl_results.get(c.name)
             extra = ["params " + " ".join(vals)] if vals else []
             out.append(V.Case(c.name, list(c.lines) + extra + ["TRACE"] + (list(r["lines"]) if r else []), c.meta))
@@ -707,11 +974,16 @@ def model_search(ctx):
     for i, sc in enumerate(scen):
         cases.append(V.Case("modelsearch-%d" % i, sc + ["params " + " ".join(vals), "explore %d 4000" % (ctx.seed + i)]))
     res = ctx.run_model(cases)
-    for c in cases:
+    avals = _code_aorders() or []
+    acases = [V.Case("modelsearch-attach-%d" % i, ["attach 512 %d" % tr, "aparams " + " ".join(avals), "explore %d 2000" % (ctx.seed + i)])
+              for i, tr in enumerate((2, 4))]
+    res.update(ctx.run_model(acases))
+    for c in cases + acases:
         r = res.get(c.name)
         if r and r["lines"] and r["lines"][0].startswith("FOUND"):
             return (V.Case(c.name, list(c.lines) + r["lines"]),
-                    "model history (memory orders as extracted from the code: %s): %s" % (" ".join(vals), r["lines"][0][6:]))
+                    "model history (memory orders as extracted from the code: %s / %s): %s" % (
+                        " ".join(vals), " ".join(avals), r["lines"][0][6:]))
     return None
 
 
@@ -819,7 +1091,9 @@ def _mon_conc(case, lines):
 MANIFEST = {
     "level_text": ("Unbounded Coq theorems over an executable byte-level model of shm_ring_buffer.c (headers and payloads in "
                    "one byte memory, uint32 arithmetic explicit): FIFO refinement (fetched once, in order, exact length and "
-                   "bytes; fetch = nothing iff nothing pending), allocation never overlaps unread data or the live wrap marker, "
+                   "bytes; fetch = nothing iff nothing pending; allocations through w_alloc_bytes and w_alloc_cachelines with any "
+                   "footprint that holds the message), allocation never overlaps unread data or the live wrap marker, the segment "
+                   "computed by muggle_shm_ringbuf_open holds the whole announced ring, "
                    "indices in range, exact acceptance condition of a drained ring with the refuted 'half the ring' clause as "
                    "known finding; interleaving model (1 reader, locked writers, release/acquire views, memory orders "
                    "re-extracted) with the reachable-state invariant for all interleavings, visibility and crash safety proved.  Tie: differential run of the extracted "
